@@ -398,6 +398,13 @@ def run_generated(job: dict, res: dict, viol) -> None:
             viol({"kind": "fault_free_run_pending_tasks_at_loop_close", "engine": "generated_inprocess",
                   "tasks": (base.get("pending_at_close") or base.get("loop_unhandled"))[:4]},
                  {"generated": {"scn": scn, "sched": {"policy": "random", "seed": i}, "fault": None}})
+        fin0 = Counter(e["sid"] for e in base["events"] if e.get("op") == "finalize")
+        C["gen_fault_free_finalize_checked"] += len(scn["sims"])
+        for s_ in scn["sims"]:
+            if fin0.get(s_["sid"], 0) != 1:
+                viol({"kind": "fault_free_run_finalize_count", "engine": "generated_inprocess", "sid": s_["sid"],
+                      "finalize_calls": fin0.get(s_["sid"], 0)},
+                     {"generated": {"scn": scn, "sched": {"policy": "random", "seed": i}, "fault": None}})
         nreq: Dict[str, int] = Counter(e["sid"] for e in base["events"] if e.get("op") == "call")
         case = 0
         for s_ in scn["sims"]:
@@ -569,8 +576,12 @@ def replay(rep: dict) -> List[dict]:
         g = r["generated"]
         tr = run_generated_case(g["scn"], dict(g["sched"]))
         if g["fault"] is None:
-            return [{"kind": "fault_free_run_pending_tasks_at_loop_close", "tasks": tr.get("pending_at_close")}] \
+            out = [{"kind": "fault_free_run_pending_tasks_at_loop_close", "tasks": tr.get("pending_at_close")}] \
                 if tr.get("pending_at_close") or tr.get("loop_unhandled") else []
+            fin0 = Counter(e["sid"] for e in tr["events"] if e.get("op") == "finalize")
+            out += [{"kind": "fault_free_run_finalize_count", "sid": s_["sid"], "finalize_calls": fin0.get(s_["sid"], 0)}
+                    for s_ in g["scn"]["sims"] if fin0.get(s_["sid"], 0) != 1]
+            return out
         return [v for v in judge_generated(g["scn"], tr, g["fault"]) if v["kind"] != "_not_fired"]
     scn, remote = catalogue(r["catalogue"], r["until"])
     if r["fault"] is None:
